@@ -312,8 +312,8 @@ func corpusCase(c *core.Case) {
 				for _, vl := range []int{2, 36} {
 					vl := vl
 					cf := full
-					cf.exhaustive = true
-					cf.tamperKeys = 0
+					cf.rangeRounds = 12
+					cf.tamperKeys = 1
 					runFull(name, keys, cf, func(h *hist) {
 						p := r.Perm(len(keys))
 						for _, i := range p[:take] {
